@@ -345,4 +345,19 @@ theorem icube_tau_reduced (ic : ICube) (h : icubeWf ic = true) (g : Gen) (hs : g
   rw [tauMask_testBit']
   exact ⟨b, by rw [ws.lab]; exact hbr, hx, rfl⟩
 
+/-- `icubeWf` is satisfiable by a cube vertex pair on which τ permutes circles non-trivially (reduced, base circle fixed) -/
+example :
+    let ic : ICube := ⟨⟨1, #[#[#[1], #[2, 3]], #[#[1], #[2], #[3]]], some 1⟩, #[0, 1], #[#[0, 1], #[0, 2, 1]]⟩
+    icubeWf ic = true ∧ (ic.tau ⟨1, 3⟩).s = 1 ∧ (ic.tau ⟨1, 3⟩).mask = 5 := by
+  intro ic
+  refine ⟨by decide +kernel, by decide +kernel, by decide +kernel⟩
+
+/-- both outcomes of `new` occur on the trefoil: base point `4` (on the axis) is accepted, base point `2` is not -/
+example :
+    let l : Link := #[⟨.X, #[1,5,2,4]⟩, ⟨.X, #[3,1,4,6]⟩, ⟨.X, #[5,3,6,2]⟩]
+    (new l (sinvEMap 6) (some 4)).isOk = true ∧ (new l (sinvEMap 6) (some 2)).isOk = false ∧
+    (new l (sinvEMap 6) (some 9)).isOk = false := by
+  intro l
+  refine ⟨by decide +kernel, by decide +kernel, by decide +kernel⟩
+
 end Yuiv.C19Inv
